@@ -26,6 +26,7 @@ import GeoProofs.Lemmas.C07Kernels
 import GeoProofs.Lemmas.C07Dispatch
 import GeoProofs.Lemmas.C07Bbox
 import GeoProofs.Lemmas.C07PBase
+import GeoProofs.Lemmas.C07PParts
 
 namespace Geo.Proofs.C07
 open Geo Geo.Proofs.Kernel
@@ -358,6 +359,47 @@ theorem baseD_linear_is_min {x y : Base} (hx : linOk x) (hy : linOk y)
 example : linOk (.ln ⟨0, 0⟩ ⟨1, 1⟩) ∧ linOk (.ls [⟨0, 3⟩, ⟨2, 2⟩]) ∧
     (baseRank (.ln ⟨0, 0⟩ ⟨1, 1⟩) + baseRank (.ls [⟨0, 3⟩, ⟨2, 2⟩]) ≠ 2 ∨ baseRank (.ln ⟨0, 0⟩ ⟨1, 1⟩) = 1) :=
   ⟨trivial, by simp [linOk, segs], Or.inr rfl⟩
+
+/-- **the dispatch visits exactly the pairs of parts**: every single-part call of `distance(a, b)` is
+between a part of `a` and a part of `b` (in one of the two orders), and every such pair is visited.
+`parts g` = the single-part members of `g`, collections flattened. -/
+theorem calls_are_part_pairs (a b : Geom) :
+    (∀ xy ∈ calls a b, (xy.1 ∈ parts a ∧ xy.2 ∈ parts b) ∨ (xy.1 ∈ parts b ∧ xy.2 ∈ parts a)) ∧
+    (∀ x ∈ parts a, ∀ y ∈ parts b, (x, y) ∈ calls a b ∨ (y, x) ∈ calls a b) :=
+  calls_cover _ a b (le_refl _)
+
+/-- **`distance(a, b)` is the true minimum distance of two linear geometries**: for geometries whose
+parts are Points, Lines and LineStrings with at least one segment (Point, Line, LineString, MultiPoint,
+MultiLineString and arbitrarily nested collections of these), the result is finite and equals the
+minimum of `|x − y|²` over all points `x` of `a` and `y` of `b` (`GeomPts g x` = `x` lies on a part of
+`g`): it bounds all pairs from below and is attained.
+(`_partial`: `tolOk` excludes finding K4 on the Point × LineString pairs; the full statement without
+`ht` is false on the pinned tree, `tolerance_false_positive_witness`.) -/
+theorem distG_is_true_min_partial {a b : Geom} (ha : ∀ p ∈ parts a, linOk p) (hb : ∀ q ∈ parts b, linOk q)
+    (ht : ∀ p ∈ parts a, ∀ q ∈ parts b, tolOk p q) (na : parts a ≠ []) (nb : parts b ≠ []) :
+    ∃ m, distG a b = .fin m ∧ IsMinDist (GeomPts a) (GeomPts b) m := by
+  obtain ⟨m, hm⟩ := distG_lin_finite ha hb ht na nb
+  exact ⟨m, hm, distG_IsMinDist ha hb ht hm⟩
+
+/-- the same at full strength when no Point × LineString pair occurs (e.g. Line / LineString /
+MultiLineString operands on both sides, or Points against Points and Lines) -/
+theorem distG_is_true_min {a b : Geom} (ha : ∀ p ∈ parts a, linOk p) (hb : ∀ q ∈ parts b, linOk q)
+    (hk : ∀ p ∈ parts a, ∀ q ∈ parts b, baseRank p + baseRank q ≠ 2 ∨ baseRank p = 1)
+    (na : parts a ≠ []) (nb : parts b ≠ []) :
+    ∃ m, distG a b = .fin m ∧ IsMinDist (GeomPts a) (GeomPts b) m := by
+  apply distG_is_true_min_partial ha hb _ na nb
+  intro p hp q hq
+  have h := hk p hp q hq
+  revert h
+  cases p <;> cases q <;> simp [baseRank, tolOk]
+
+example :
+    let a : Geom := .collection [.multiLineString [[⟨0, 0⟩, ⟨1, 0⟩], [⟨0, 2⟩, ⟨1, 3⟩]], .line ⟨0, 5⟩ ⟨1, 5⟩]
+    let b : Geom := .lineString [⟨5, 5⟩, ⟨6, 7⟩, ⟨8, 7⟩]
+    (∀ p ∈ parts a, linOk p) ∧ (∀ q ∈ parts b, linOk q) ∧
+    (∀ p ∈ parts a, ∀ q ∈ parts b, baseRank p + baseRank q ≠ 2 ∨ baseRank p = 1) ∧
+    parts a ≠ [] ∧ parts b ≠ [] := by
+  simp [parts, partsList, linOk, segs, baseRank]
 
 /-- **dist2_symm**, mixed pairs: the `symmetric_distance_impl!` pairs are symmetric by construction -/
 theorem baseD_symm_mixed (x y : Base) (h : baseRank x ≠ baseRank y) : baseD x y = baseD y x := by
